@@ -55,7 +55,7 @@ package httpgrpc
 //@   assert_call[C09] (http.Header).Set : key: arg1 == "GRPC-Timeout"
 //@   assert_call[C09] (http.Header).Set : into_result: arg0 == h
 //@   assert_call[C09] (http.Header).Set : value: arg2 == fmt_dm(millis_of(lastresult("time.Until")))
-//@   assert_call[C09] fmt.Sprintf : never_later_than_caller: millis_of(lastresult("time.Until")) >= 1 && (lastresult("time.Until") >= 1000000 ==> millis_of(lastresult("time.Until")) * 1000000 <= lastresult("time.Until") && lastresult("time.Until") - millis_of(lastresult("time.Until")) * 1000000 < 1000000)
+//@   assert_call[C09] (http.Header).Set : never_later_than_caller: millis_of(lastresult("time.Until")) >= 1 && (lastresult("time.Until") >= 1000000 ==> millis_of(lastresult("time.Until")) * 1000000 <= lastresult("time.Until") && lastresult("time.Until") - millis_of(lastresult("time.Until")) * 1000000 < 1000000)
 //@   ensures[C09,C03] result_is_the_header_map: result == h
 //@   modifies everything
 
@@ -187,7 +187,7 @@ package httpgrpc
 //@   ensures[C03] result1 != nil ==> result0 == nil
 //@   assert_call[C03] (*base64.Encoding).DecodeString : only_binary_keys_are_decoded_with_the_url_alphabet: arg0 == base64.URLEncoding && arg1 == vs[rangeindex] && has_suffix(k, "-bin")
 //@   assert_call[C03] strings.ToLower : keys_are_lower_cased: true
-//@   ensures[C03] an_undecodable_binary_value_is_the_only_error: result1 != nil ==> called("(*base64.Encoding).DecodeString") && result1 == lastresult("(*base64.Encoding).DecodeString", 1)
+//@   ensures[C03] an_undecodable_binary_value_is_the_only_error: result1 != nil ==> called("(*base64.Encoding).DecodeString") && lastresult("(*base64.Encoding).DecodeString", 1) != nil
 //@   modifies nothing
 //
 // setMetadata: reply headers -> header metadata and (x-grpc-trailer- prefixed keys) trailer
@@ -259,15 +259,15 @@ package httpgrpc
 //@   ensures[C13] peer_options_are_filled_once_the_reply_arrived: lastresult("http.RoundTripper.RoundTrip", 1) == nil && len(cs.copts.Peer) > 0 ==> calls("(*internal.CallOptions).SetPeer") == 1
 //@   ensures[C05] the_request_pipe_is_always_released: calls("(*io.PipeReader).CloseWithError") == 1
 //@   assert_call[C05] (*io.PipeReader).CloseWithError : with_the_final_error_after_it_was_published: arg0 == readPipe && cs.done
-//@   ensures[C05] the_reply_body_is_drained_and_closed: lastresult("http.RoundTripper.RoundTrip", 1) == nil ==> calls("io.ReadCloser.Close") == 1 && called("ioutil.ReadAll")
+//@   ensures[C05] the_reply_body_is_drained_and_closed: lastresult("http.RoundTripper.RoundTrip", 1) == nil ==> calls("io.ReadCloser.Close") == 1 && called("io.drain")
 //@   assert_call[C05] io.ReadCloser.Close : the_reply_body: arg0 == reply_body
 //@   assert_call[C03] (*internal.CallOptions).SetHeaders : the_stored_reply_headers_to_the_header_options: arg0 == cs.copts && arg1 == cs.hd && cs.hd == lastresult(asMetadata, 0) && lastresult(asMetadata, 1) == nil && cs.hdErr == nil
 //@   assert_call[C02,C14] statFromResponse : of_the_reply_with_its_status_headers_as_received: arg0 == lastresult("http.RoundTripper.RoundTrip", 0) && xstatus(arg0) == at_return("http.RoundTripper.RoundTrip", xstatus(arg0)) && arg0.StatusCode == at_return("http.RoundTripper.RoundTrip", arg0.StatusCode) && len(arg0.Header[grpcDetailsHeader]) == at_return("http.RoundTripper.RoundTrip", len(arg0.Header[grpcDetailsHeader]))
 //@   assert_call[C03] statFromResponse : header_options_were_filled_before_any_message: len(lastresult(asMetadata, 0)) > 0 && len(cs.copts.Headers) > 0 ==> calls("(*internal.CallOptions).SetHeaders") == 1
 //@   ensures[C03] a_header_decoding_error_is_what_Header_reports: called(asMetadata) ==> cs.hdErr == lastresult(asMetadata, 1)
 //@   ensures[C02] a_non_ok_reply_status_leaves_a_non_ok_trailer: called("(*status.Status).Proto") ==> cs.tr.Code != 0
-//@   assert_call[C02] ioutil.ReadAll : a_non_ok_reply_status_was_copied_into_the_trailer_whole: called("(*status.Status).Proto") ==> cs.tr.Code == lastresult("(*status.Status).Proto").Code && cs.tr.Message == lastresult("(*status.Status).Proto").Message && cs.tr.Details == lastresult("(*status.Status).Proto").Details
-//@   assert_call[C03] ioutil.ReadAll : received_trailers_went_to_the_trailer_options_first: called(readProtoMessage) && len(cs.tr.Metadata) > 0 && len(cs.copts.Trailers) > 0 ==> calls("(*internal.CallOptions).SetTrailers") == 1
+//@   assert_call[C02] io.drain : a_non_ok_reply_status_was_copied_into_the_trailer_whole: called("(*status.Status).Proto") ==> cs.tr.Code == lastresult("(*status.Status).Proto").Code && cs.tr.Message == lastresult("(*status.Status).Proto").Message && cs.tr.Details == lastresult("(*status.Status).Proto").Details
+//@   assert_call[C03] io.drain : received_trailers_went_to_the_trailer_options_first: called(readProtoMessage) && len(cs.tr.Metadata) > 0 && len(cs.copts.Trailers) > 0 ==> calls("(*internal.CallOptions).SetTrailers") == 1
 //@   assert_call[C03] (*internal.CallOptions).SetTrailers : from_the_received_trailer: arg0 == cs.copts && arg1 == lastresult(metadataFromProto) && lastarg(metadataFromProto, 0) == cs.tr.Metadata
 //@   assert_call[C04] http.RoundTripper.RoundTrip : request_carries_stream_context: arg0 == transport
 //@   ensures[C09,C03,C13] the_request_goes_out_with_the_headers_it_was_built_with: !called("(http.Header).Set") && !called("(http.Header).Add") && !called("(http.Header).Del")
